@@ -1065,6 +1065,18 @@ pub(crate) mod alloc {
             - BlsScalar::one())
             * domain.size_inv;
 
+        // The barycentric formula has a removable singularity at the domain
+        // elements: there the interpolant takes the value stored at the
+        // element's own index (zero past the end of `evaluations`).
+        if numerator == BlsScalar::zero() {
+            return domain
+                .elements()
+                .zip(evaluations.iter())
+                .find(|(element, _)| element == point)
+                .map(|(_, evaluation)| *evaluation)
+                .unwrap_or(BlsScalar::zero());
+        }
+
         // Indices with non-zero evaluations
         #[cfg(not(feature = "std"))]
         let range = (0..evaluations.len()).into_iter();
